@@ -23,6 +23,17 @@ func runC01(r *Run) {
 			Spec{Name: "arr-small-T256-L6", Kind: "arr-small", T: 256, L: 6, Classes: []string{"t", "u5", "mid", "limA", "limA+", "s:limA"}, Oracles: or},
 		)
 	}
+	// other slab sizes (size classes are relative to the slab size) and all histories up to a depth
+	// without state deduplication (hidden state the canonical key cannot see)
+	nd, ndL := 4, 3
+	if r.Thorough() {
+		nd, ndL = 5, 4
+	}
+	specs = append(specs,
+		Spec{Name: "arr-small-T1024-L4", Kind: "arr-small", T: 1024, L: 4, Classes: []string{"t", "mid", "limA", "limA+", "A:t"}, Oracles: or},
+		Spec{Name: "arr-small-T32768-L3", Kind: "arr-small", T: 32768, L: 3, Classes: []string{"t", "limA", "limA+"}, Oracles: or},
+		Spec{Name: "arr-nodedup-T256", Kind: "arr-small", T: 256, L: ndL, Classes: []string{"limA", "A:t", "s:A:limA-,limA-"}, Oracles: or, Depth: nd, Extra: map[string]int{"nodedup": 1}},
+	)
 	r.ExploreSpecs(specs)
 	// trajectories: multi-level trees, depth-bounded neighbourhoods of every trajectory state
 	tor := []string{"sem", "oob", "reopen"}
